@@ -17,6 +17,13 @@ class Quiescent(Exception):
     """The loop was asked to block forever: no timers, no ready callbacks."""
 
 
+class Livelock(Exception):
+    """Thousands of loop iterations without the virtual clock advancing: something spins."""
+
+
+SPIN_LIMIT = 20000
+
+
 class _VSelector(selectors.BaseSelector):
     def __init__(self, loop):
         self._loop = loop
@@ -51,6 +58,7 @@ class _VSelector(selectors.BaseSelector):
 class VirtualLoop(asyncio.SelectorEventLoop):
     def __init__(self):
         self._vtime = 0.0
+        self._spin_time, self._spin_count = -1.0, 0
         self.iteration = 0
         self.on_iteration = None
         super().__init__(selector=_VSelector(self))
@@ -61,6 +69,12 @@ class VirtualLoop(asyncio.SelectorEventLoop):
 
     def _run_once(self):
         self.iteration += 1
+        if self._vtime != self._spin_time:
+            self._spin_time, self._spin_count = self._vtime, 0
+        else:
+            self._spin_count += 1
+            if self._spin_count > SPIN_LIMIT:
+                raise Livelock()
         if self.on_iteration is not None:
             self.on_iteration(self.iteration)
         super()._run_once()
@@ -177,10 +191,13 @@ class World:
             self.event("attempt_cancelled", n)
             raise
         rec["end"] = self.loop.time()
-        if outcome == "fail":
+        if outcome.startswith("fail"):
             rec["outcome"] = "fail"
             self.event("attempt_fail", n)
-            raise ConnectionRefusedError(f"scripted failure #{n}")
+            kind = outcome.partition(":")[2] or "ConnectionRefusedError"
+            exc = {"ConnectionRefusedError": ConnectionRefusedError, "TimeoutError": asyncio.TimeoutError, "OSError": OSError, "ValueError": ValueError,
+                   "RuntimeError": RuntimeError, "EOFError": EOFError, "KeyError": KeyError, "Exception": Exception}[kind]
+            raise exc(f"scripted failure #{n}")
         from han import dlde
 
         protocol = self.mc.SmartMeterMessagePayloadProtocol(asyncio.Queue(), [dlde.ModeDReader()])
@@ -251,6 +268,8 @@ def run_scenario(script, *, close_at_iteration=None, close_at_time=None, horizon
             loop.run_forever()
         except Quiescent:
             out["quiescent"] = True
+        except Livelock:
+            out["livelock"] = True
         world.finished = True
         out["end_time"] = loop.time()
         out["iterations"] = loop.iteration
@@ -266,8 +285,9 @@ def run_scenario(script, *, close_at_iteration=None, close_at_time=None, horizon
             if pending:
                 loop.on_iteration = None
                 try:
+                    loop._spin_count = SPIN_LIMIT - 200  # a spinning task gets little time to wind down
                     loop.run_until_complete(asyncio.gather(*pending, return_exceptions=True))
-                except (Quiescent, RuntimeError):
+                except (Quiescent, Livelock, RuntimeError):
                     pass
         finally:
             asyncio.set_event_loop(None)
